@@ -51,6 +51,8 @@ type Rec struct {
 	Obs  Obs    `json:"obs"`
 	Reg  string `json:"reg"` // fingerprint of the process-global type registry before the run
 	Sym  string `json:"sym"` // fingerprint of the symbol numbers of the registered type names
+	// the registered type names ordered by the symbol number the set-up gave them
+	TypeOrder []string `json:"type_order,omitempty"`
 }
 
 type Diff struct {
@@ -68,6 +70,11 @@ type Diff struct {
 	RegDiff  bool     `json:"registry_differs_before_run"`
 	SymDiff  bool     `json:"type_symbol_numbers_differ_before_run"`
 	BSymDiff bool     `json:"builtin_symbol_numbers_differ_before_run"`
+	// registered type names present before only one of the two runs, and whether the names
+	// present before both were interned in the same relative order
+	OnlyA       []string `json:"type_names_only_before_a"`
+	OnlyB       []string `json:"type_names_only_before_b"`
+	CommonOrder bool     `json:"common_type_names_interned_in_same_order"`
 }
 
 func repoDir() string {
@@ -395,6 +402,8 @@ func driver(args lib.Args, focus string) {
 				diffs = append(diffs, Diff{ID: p.ID, Tags: p.Tags, File: p.File, Program: p.Src, Kind: kind,
 					WhereA: where(ref), WhereB: where(r), A: ref.Obs, B: r.Obs, Field: field, NDist: len(distinct),
 					RegDiff: ref.Reg != r.Reg, SymDiff: half(ref.Sym, 0) != half(r.Sym, 0), BSymDiff: half(ref.Sym, 1) != half(r.Sym, 1)})
+				dd := &diffs[len(diffs)-1]
+				dd.OnlyA, dd.OnlyB, dd.CommonOrder = compareOrders(ref.TypeOrder, r.TypeOrder)
 			}
 		}
 		if os.Getenv("C20_SHOW") != "" {
@@ -476,4 +485,30 @@ func half(s string, i int) string {
 		return p[i]
 	}
 	return ""
+}
+
+func compareOrders(a, b []string) (onlyA, onlyB []string, same bool) {
+	inA, inB := map[string]bool{}, map[string]bool{}
+	for _, n := range a {
+		inA[n] = true
+	}
+	for _, n := range b {
+		inB[n] = true
+	}
+	var ca, cb []string
+	for _, n := range a {
+		if inB[n] {
+			ca = append(ca, n)
+		} else {
+			onlyA = append(onlyA, n)
+		}
+	}
+	for _, n := range b {
+		if inA[n] {
+			cb = append(cb, n)
+		} else {
+			onlyB = append(onlyB, n)
+		}
+	}
+	return onlyA, onlyB, strings.Join(ca, "\x00") == strings.Join(cb, "\x00")
 }
